@@ -112,6 +112,7 @@ inductive Nested
   | holdExit (st : Int)
   | poke (slot off : Nat) (bs : List Byte)
   | edit (bs : List Byte)
+  | report (n : Nat)                 -- a read/test handler stores n through `data_size` without touching the buffer
   deriving DecidableEq, Repr, Inhabited
 
 /-- What a callback answers: its return value and what it does meanwhile. -/
